@@ -33,6 +33,9 @@ type Src struct {
 	Excluded []string
 }
 
+// AvoidKey is avoid for generators outside this package.
+func (s *Src) AvoidKey(key string) bool { return s.avoid(key) }
+
 // avoid reports (and records) that the class of known finding key has to be repaired.
 func (s *Src) avoid(key string) bool {
 	if s.Avoid != nil && s.Avoid(key) {
